@@ -98,6 +98,37 @@ class Mask:
         return f"<mask {sorted(self.preds)}>"
 
 
+class Positions:
+    """np.arange(len(table)): the row positions.  `positions >= #{col < q}` holds exactly on the rows with col >= q (the column is sorted),
+    `positions < #{col < q}` exactly on those with col < q"""
+
+    def __init__(self, w):
+        self.w = w
+
+    def abs_compare(self, op, other, reflected):
+        o = OPS.get(type(op).__name__)
+        if o is None:
+            raise Undecided("row-position comparison " + type(op).__name__)
+        if reflected:
+            o = FLIP[o]
+        if o == ">=":
+            return Mask(self.w, slice_preds(self.w, other, None))
+        if o == "<":
+            return Mask(self.w, slice_preds(self.w, None, other))
+        raise Undecided(f"row positions {o} a bound: not a half-open cut of the sorted column")
+
+    def __repr__(self):
+        return "<row positions>"
+
+
+def _arange(w):
+    def f(it, n, *a, **k):
+        if isinstance(n, NRows) and not a:
+            return Positions(w)
+        raise Undecided(f"np.arange({n!r})")
+    return f
+
+
 def count_info(w, t):
     if isinstance(t, Term):
         return w.counts.get(t.key())
@@ -154,6 +185,7 @@ def run_idx(prog, mode, have_s, have_e, mono):
     w = World7()
     model = Model()
     model.ext["np.ones"] = lambda it, n, **k: Mask(w)
+    model.ext["np.arange"] = _arange(w)
     it = Interp(prog, model)
     qs, qe = Term.sym("qs", 0, INF, True), Term.sym("qe", 0, INF, True)
     starts = Vec([qs]) if have_s else None
